@@ -252,6 +252,10 @@ static inline long it_distance(it_t a, it_t b) { return b - a; }
   static inline T *NAME##_back(NAME *v) { MODEL_PRE(v->n > 0, "vector::back requires !empty()"); return &v->data[v->n - 1]; } \
   static inline T *NAME##_front(NAME *v) { MODEL_PRE(v->n > 0, "vector::front requires !empty()"); return &v->data[0]; } \
   static inline void NAME##_pop_back(NAME *v) { MODEL_PRE(v->n > 0, "vector::pop_back requires !empty()"); v->n--; } \
+  static inline void NAME##_pop_front(NAME *v) { \
+    MODEL_PRE(v->n > 0, "deque::pop_front requires !empty()"); \
+    for (unsigned long k = 0; k + 1 < v->n; k++) v->data[k] = v->data[k + 1]; \
+    v->n--; } \
   static inline T *NAME##_begin(NAME *v) { return v->data; } \
   static inline T *NAME##_end(NAME *v) { return v->n ? v->data + v->n : v->data; } \
   static inline T *NAME##_at(NAME *v, unsigned long i) { MODEL_PRE(i < v->n, "vector[i] requires i < size()"); return &v->data[i]; } \
